@@ -1,0 +1,18 @@
+//go:build verif
+
+package lru
+
+// VerifWalk reports what iterable.Map.VerifWalk sees on the cache's inner map
+// (build tag verif only; read-only, taken under the cache lock).
+func (p *ECache[PK, K, V]) VerifWalk() (nodes, deleted, sumRef int, headOK bool) {
+	p.lock.Lock()
+	defer p.lock.Unlock()
+	return p.items.VerifWalk()
+}
+
+// VerifInflight returns the number of keys whose creation is in flight.
+func (p *ECache[PK, K, V]) VerifInflight() int {
+	p.lock.Lock()
+	defer p.lock.Unlock()
+	return len(p.inflight)
+}
